@@ -80,6 +80,36 @@ func genAffinityPlan(seed uint64, tier string) *Plan {
 			p.Ops = append(p.Ops, op)
 		}
 	}
+	if g.chance(20) {
+		// INVITE and, while it rings, a CANCEL with the same branch on the same connection (as RFC 3261 requires); the
+		// CANCEL is answered first, the INVITE's 487 later: both answers belong on that connection
+		id := g.nextID()
+		br := "z9hG4bK" + g.alnumL(8, 12)
+		conn := fmt.Sprintf("kc%d", g.intn(2))
+		rp := g.intn(3)
+		inv := Op{Kind: "tx", ID: id, Conn: conn, SrcIP: clientIP, DelayUs: int64(g.intn(4)) * 2500,
+			S: map[string]string{"method": "INVITE", "prov": "180", "branch": br},
+			I: map[string]int{"final": 487, "d1": 800, "d2": 40000 + g.intn(20000), "rport": rp}}
+		can := Op{Kind: "tx", ID: g.nextID(), Conn: conn, SrcIP: clientIP, DelayUs: inv.DelayUs + 5000,
+			S: map[string]string{"method": "CANCEL", "prov": "", "branch": br},
+			I: map[string]int{"final": 200, "d1": 500, "d2": 500, "rport": rp}}
+		if sameSentBy {
+			inv.S["sentby"], can.S["sentby"] = "10.1.0.1:5060", "10.1.0.1:5060"
+		}
+		p.Ops = append(p.Ops, inv, can)
+	}
+	if g.chance(20) {
+		// the client's connection breaks while its request is pending; it connects again and sends the same request
+		// (same branch) over the new connection: that is where the answers belong now
+		id := g.nextID()
+		op := Op{Kind: "tx", ID: id, Conn: "kr-" + id, SrcIP: clientIP, DelayUs: int64(g.intn(4)) * 2500,
+			S: map[string]string{"method": g.pick("INVITE", "OPTIONS", "REGISTER"), "prov": g.pick("", "180")},
+			I: map[string]int{"final": 200, "d1": 30000 + g.intn(5000), "d2": 2000 + g.intn(20000), "rport": 0, "retxAtUs": 8000 + g.intn(8000)}}
+		// the client names its listening port and asks for no rport: both copies are one transaction towards one
+		// response address, whichever connection carries them
+		op.S["sentby"] = "10.1.0.1:5060"
+		p.Ops = append(p.Ops, op)
+	}
 	if g.chance(12) {
 		// a transaction that is ringing while its connection turns an hour old
 		id := g.nextID()
@@ -134,7 +164,9 @@ func execAffinity(t *testing.T, p *Plan) *Result {
 		}
 		l := p.Cfg.Listens[0]
 		hungUp := map[string]bool{}
+		retransmits := false
 		for i := range p.Ops {
+			retransmits = retransmits || p.Ops[i].I["retxAtUs"] > 0
 			op := &p.Ops[i]
 			if op.Kind == "hangup" {
 				hungUp[op.Conn] = true
@@ -177,7 +209,23 @@ func execAffinity(t *testing.T, p *Plan) *Result {
 				b.Add("Call-ID", "cid-"+op.ID)
 				b.Add("CSeq", "1 "+op.S["method"])
 				b.Add("X-Sim-Id", op.ID)
-				c.Write(b.Bytes())
+				data := b.Bytes()
+				c.Write(data)
+				if us := op.I["retxAtUs"]; us > 0 {
+					w.K.After(time.Duration(us)*time.Microsecond, "retransmit-on-new-connection", func() {
+						c.Close()
+						w.K.After(300*time.Microsecond, "reconnect", func() {
+							c2, err := w.TCPConnTo(op.Conn+"-again", op.SrcIP, 0, hostPort(l.Addr, l.TCP))
+							if err != nil {
+								return
+							}
+							connOfReq[op.ID] = c2.ID
+							// the Via sent-by of a client that lets the proxy see its address is that of the connection
+							c2.Write(data)
+							w.stat("probe:request-sent-again-over-a-new-connection")
+						})
+					})
+				}
 			})
 		}
 		if p.Variant == "hour-old-connection" {
@@ -241,8 +289,10 @@ func execAffinity(t *testing.T, p *Plan) *Result {
 			}
 		}
 		for _, ev := range w.N.Events {
-			if len(hungUp) > 0 {
-				break // answers for the client that hung up are dialled towards its Via address, rightly
+			if len(hungUp) > 0 || retransmits {
+				// answers for the client that hung up are dialled towards its Via address, rightly; so is the second
+				// backend's final answer to a request that was sent twice (the first final answer ended the transaction)
+				break
 			}
 			if ev.Kind == "tcp-connect" && strings.HasPrefix(ev.B, "10.1.0.1:") || ev.Kind == "tcp-refused" && strings.HasPrefix(ev.B, "10.1.0.1:") {
 				w.Viol = append(w.Viol, Violation{Prop: "C12", Rule: "dial-towards-client", Msg: "", Sig: "",
